@@ -161,7 +161,9 @@ int write_macho(
   file.write_int32(-2147482624); // flags
   file.write_int32(0);           // reserved1
   file.write_int32(0);           // reserved2
-  file.write_int32(0);           // reserved3
+
+  // Only struct section_64 has a third reserved word.
+  if (bits == 64) { file.write_int32(0); } // reserved3
 
   marker = file.tell();
   length = marker - markers.segment_start;
